@@ -486,7 +486,10 @@ class Run:
         return env
 
     def call_user(self, fi, self_val, args, kwargs, dyn_cls=None):
-        sp = self.eng.spec_for(fi.qual)
+        if dyn_cls is None and self_val is not None and isinstance(self_val, Ref) and \
+                isinstance(self.deref(self_val), Obj):
+            dyn_cls = self.deref(self_val).cls
+        sp = self.eng.spec_for(fi.qual, dyn_cls)
         env = self.bind_params(fi, self_val, args, kwargs)
         if sp is not None and not sp.inline and not self.spec_mode:
             from .contracts import apply_contract
@@ -529,6 +532,11 @@ class Run:
             v = self.ev(e)
             last = i == len(n.values) - 1
             if self.spec_mode:
+                ct = z3.simplify(to_bool_term(v))
+                if is_and and z3.is_false(ct):
+                    return BoolV(False)
+                if (not is_and) and z3.is_true(ct):
+                    return BoolV(True)
                 vals.append(v)
                 continue
             if last:
@@ -559,7 +567,11 @@ class Run:
     def ex_IfExp(self, n):
         c = self.ev(n.test)
         if self.spec_mode:
-            ct = to_bool_term(c)
+            ct = z3.simplify(to_bool_term(c))
+            if z3.is_true(ct):
+                return self.ev(n.body)
+            if z3.is_false(ct):
+                return self.ev(n.orelse)
             a, b = self.ev(n.body), self.ev(n.orelse)
             return self.eng.lib.ite(self, ct, a, b)
         if self.truth(c):
